@@ -4,7 +4,7 @@ import AioftpModel.Driver.Codec
 import AioftpModel.Model.Logs
 
 namespace DriverLogs
-open Codec Model Py
+open Codec Model Model.Logs Py
 
 /-- optional string: `*` is `None` -/
 def decOptStr (tok : String) : Option (Option Str) :=
